@@ -153,11 +153,11 @@ AA, QR, rcode, …) in any way changes neither which candidate is returned nor
 the error. In particular a truncated (TC=1) reply is held to the ID and
 question guards like any other, on a stream as on a datagram socket. -/
 theorem exchange_ignores_header (udp : Bool) (qid : Nat) (q : Option Question) (cands : List Cand)
-    (f : Cand → Nat) :
-    exchange udp qid q (cands.map fun c => { c with hdr := f c }) = exchange udp qid q cands := by
+    (f : Cand → Nat) (g : Cand → Bool) :
+    exchange udp qid q (cands.map fun c => { c with hdr := f c, tc := g c }) = exchange udp qid q cands := by
   have loop : ∀ (cs : List Cand) (i : Nat),
-      udpLoop qid (cs.map fun c => { c with hdr := f c }) i =
-        ((udpLoop qid cs i).1.map fun p => (p.1, { p.2 with hdr := f p.2 }), (udpLoop qid cs i).2) := by
+      udpLoop qid (cs.map fun c => { c with hdr := f c, tc := g c }) i =
+        ((udpLoop qid cs i).1.map fun p => (p.1, { p.2 with hdr := f p.2, tc := g p.2 }), (udpLoop qid cs i).2) := by
     intro cs
     induction cs with
     | nil => intro i; simp [udpLoop]
@@ -196,19 +196,19 @@ theorem exchange_ignores_header (udp : Bool) (qid : Nat) (q : Option Question) (
 and another question is refused with `ErrQuestion` — nobody retries a stream. -/
 theorem stream_truncated_wrong_question_is_error (qid hdr : Nat) (qq : Question) (qs : List Question)
     (t : List Cand) (hq : questionMatches qq qs = false) :
-    exchange false qid (some qq) (⟨false, qid, qs, hdr⟩ :: t) = (XRes.errQuestion, 1) :=
-  wrong_question_is_error false qid qq ⟨false, qid, qs, hdr⟩ t rfl rfl hq
+    exchange false qid (some qq) (⟨false, qid, qs, hdr, false⟩ :: t) = (XRes.errQuestion, 1) :=
+  wrong_question_is_error false qid qq ⟨false, qid, qs, hdr, false⟩ t rfl rfl hq
 
 /-- No transaction ID has a special standing on a stream — not 0 (what a DoH
 gateway normalises to), not 0xffff: unless it equals the query's, the reply is
 `dns.ErrId` whatever else it carries. -/
 theorem stream_special_id_is_error (qid id hdr : Nat) (q : Option Question) (qs : List Question)
     (t : List Cand) (hne : id ≠ qid) :
-    exchange false qid q (⟨false, id, qs, hdr⟩ :: t) = (XRes.errId, 1) :=
-  stream_wrong_id_is_error qid q ⟨false, id, qs, hdr⟩ t rfl hne
+    exchange false qid q (⟨false, id, qs, hdr, false⟩ :: t) = (XRes.errId, 1) :=
+  stream_wrong_id_is_error qid q ⟨false, id, qs, hdr, false⟩ t rfl hne
 
 example : exchange false 4711 (some ⟨"mail.victim.test.".toList, 1, 1⟩)
-    [⟨false, 0, [⟨"mail.victim.test.".toList, 1, 1⟩], 0⟩] = (XRes.errId, 1) := by decide
+    [⟨false, 0, [⟨"mail.victim.test.".toList, 1, 1⟩], 0, false⟩] = (XRes.errId, 1) := by decide
 
 /-- **DoH: the reply's ID is the query's or the RFC 8484 zero, nothing else**,
 also when the query's own ID is 0; and the question guard applies unless the
@@ -234,21 +234,21 @@ theorem doh_accepts_only_matching (qid : Nat) (q : Option Question) (skip : Bool
       · simp [hm] at h
 
 -- a query with ID 0 gets no free pass: 0xBEEF is refused, 0 is accepted
-example : dohExchange 0 (some ⟨"q.test.".toList, 1, 1⟩) false ⟨false, 48879, [⟨"q.test.".toList, 1, 1⟩], 0⟩
+example : dohExchange 0 (some ⟨"q.test.".toList, 1, 1⟩) false ⟨false, 48879, [⟨"q.test.".toList, 1, 1⟩], 0, false⟩
     = XRes.errId := by decide
-example : dohExchange 4711 (some ⟨"q.test.".toList, 1, 1⟩) false ⟨false, 0, [⟨"Q.test.".toList, 1, 1⟩], 0⟩
+example : dohExchange 4711 (some ⟨"q.test.".toList, 1, 1⟩) false ⟨false, 0, [⟨"Q.test.".toList, 1, 1⟩], 0, false⟩
     = XRes.ok 0 := by decide
 
 -- non-vacuity: two stray datagrams (wrong id; right id comes third, case differs) — the third is returned
 example : exchange true 7 (some ⟨"www.victim.test.".toList, 1, 1⟩)
-    [⟨false, 8, [⟨"www.victim.test.".toList, 1, 1⟩], 0⟩, ⟨false, 6, [], 0⟩,
-     ⟨false, 7, [⟨"WWW.Victim.test.".toList, 1, 1⟩], 0⟩] = (XRes.ok 2, 3) := by decide
+    [⟨false, 8, [⟨"www.victim.test.".toList, 1, 1⟩], 0, false⟩, ⟨false, 6, [], 0, false⟩,
+     ⟨false, 7, [⟨"WWW.Victim.test.".toList, 1, 1⟩], 0, false⟩] = (XRes.ok 2, 3) := by decide
 example : exchange true 7 (some ⟨"mail.victim.test.".toList, 1, 1⟩)
-    [⟨false, 7, [⟨"www.victim.test.".toList, 1, 1⟩], 0⟩, ⟨false, 7, [⟨"mail.victim.test.".toList, 1, 1⟩], 0⟩]
+    [⟨false, 7, [⟨"www.victim.test.".toList, 1, 1⟩], 0, false⟩, ⟨false, 7, [⟨"mail.victim.test.".toList, 1, 1⟩], 0, false⟩]
       = (XRes.errQuestion, 1) := by decide
 -- a TC=1 reply (header word 116 = 't') over a stream with the right id and a victim-zone question is refused
 example : exchange false 7 (some ⟨"x.sub.evil.test.".toList, 1, 1⟩)
-    [⟨false, 7, [⟨"x.sub.victim.test.".toList, 1, 1⟩], 116⟩] = (XRes.errQuestion, 1) := by decide
+    [⟨false, 7, [⟨"x.sub.victim.test.".toList, 1, 1⟩], 116, false⟩] = (XRes.errQuestion, 1) := by decide
 
 /-! ## glue -/
 
